@@ -251,7 +251,132 @@ def check_c10(chk, rng):
                             "distinct = distinct scenario text")
 
 
-CHECKS = {"C10": check_c10}
+# ------------------------------------------------------------------------------------------------ C12 switch_
+def branch_graph(rng, base_id, two):
+    nodes, prev, nid = [], "a0", base_id
+    for j in range(rng.randint(1, 3)):
+        choices = ["pass", "add", "acc", "count", "delay"]
+        if two and j == 0:
+            choices += ["sumu", "sum2", "sum2"]
+        kind = rng.choice(choices)
+        if kind in ("sumu", "sum2"):
+            nodes.append((nid, kind, {}, [prev, "a1"]))
+        else:
+            nodes.append((nid, kind, {"k": rng.randint(1, 3)}, [prev]))
+        prev = nid
+        nid += 1
+    return nodes, prev
+
+
+def check_c12(chk, rng):
+    quick = chk.tier == "quick"
+    nscn = 250 if quick else 4000
+    scns, metas, progs = [], [], []
+    pid = 1
+    for s in range(nscn):
+        horizon = rng.choice([6, 7, 9])
+        two = rng.random() < 0.35
+        nb = rng.randint(2, 3)
+        branches = [branch_graph(rng, 10 * (b + 1), two) for b in range(nb)]
+        has_default = rng.random() < 0.3
+        reload = rng.random() < 0.3
+        unmatched = (not has_default) and rng.random() < 0.12
+        keyvals = list(range(1, nb + 1)) + ([7] if (has_default or unmatched) else [])
+        # key history: rapid flips, repeats, flip in the same cycle as an input tick, return to an earlier key
+        kticks = []
+        for t in sorted(rng.sample(range(1, horizon + 1), rng.randint(1, min(5, horizon)))):
+            prev = kticks[-1][1] if kticks else None
+            pool = [k for k in keyvals if k != 7 or has_default or (unmatched and t > horizon // 2)]
+            if prev is not None and rng.random() < 0.25:
+                kticks.append([t, prev])
+            else:
+                kticks.append([t, rng.choice(pool)])
+        ts1 = P.gen_script(rng, horizon, maxlen=5)
+        ts2 = P.gen_script(rng, horizon, maxlen=3, values=(10, 20)) if two else []
+        lines = ["scn sw%d" % s, "opt start=1 end=%d" % (horizon + 1)]
+        for b, (fn, fout) in enumerate(branches):
+            lines += ["graph g%d nin=%d" % (b, 2 if two else 1)] + [fn_stmt(n) for n in fn] + ["out %d" % fout, "endgraph"]
+        lines += ["graph root", "n 1 src script=" + ";".join("%d:%d" % (t, v) for t, v in kticks),
+                  "n 2 src script=" + ";".join("%d:%d" % (t, v) for t, v in ts1)]
+        if two:
+            lines.append("n 5 src script=" + ";".join("%d:%d" % (t, v) for t, v in ts2))
+        cases = ",".join("%d:%d" % (b + 1, b) for b in range(nb))
+        lines.append("n 3 switch in=1,2%s cases=%s%s%s" % (",5" if two else "", cases, " dflt=%d" % (nb - 1) if has_default else "",
+                                                         " reload=1" if reload else ""))
+        lines += ["n 4 rec in=3", "endgraph", "run"]
+        scn = "\n".join(lines)
+        # selection intervals
+        ivs, cur, fail_at = [], None, None
+        for t, k in kticks:
+            if k == 7 and not has_default:
+                fail_at = t
+                break
+            b = (k - 1) if k != 7 else (nb - 1)
+            if cur is None or reload or k != cur[1]:
+                if cur is not None:
+                    ivs.append((cur[0], t, cur[2]))
+                cur = (t, k, b)
+        if cur is not None:
+            ivs.append((cur[0], fail_at if fail_at else horizon + 1, cur[2]))
+        ips = []
+        for (a, r, b) in ivs:
+            if a >= r:
+                continue
+            fn, fout = branches[b]
+            p = flat_program(pid, fn, fout, held_stream(ts1, a, r), 0, held_stream(ts2, a, r), a, r)
+            pid += 1
+            progs.append(p)
+            ips.append((a, r, b, p))
+        scns.append(scn)
+        metas.append((ips, fail_at, horizon))
+    preds, res = dfcheck.predict(progs, tag="c12")
+    chk.add_tlc(res, "branch-alone")
+    traces = hg.run_driver("engine", scns)
+    nfail = 0
+    for scn, (ips, fail_at, horizon), tr in zip(scns, metas, traces):
+        chk.count({"scn": scn})
+        if isinstance(tr, dict):
+            chk.violation("crash", "driver crashed/hung: %s" % json.dumps(tr)[:300], scn)
+            continue
+        ret = [e for e in tr if e["e"] == "ret"]
+        if any(e["e"] in ("wirefail", "harnessfail") for e in tr) or not ret:
+            chk.violation("run-failed", "switch_ scenario could not be wired / run", scn)
+            continue
+        if fail_at is not None:
+            nfail += 1
+            if ret[0]["ok"] != 0 or "no branch" not in ret[0]["msg"]:
+                chk.violation("unmatched-key", "a key with no branch and no default must be an error (run returned %s)" % ret[0], scn)
+                continue
+        elif ret[0]["ok"] != 1:
+            chk.violation("run-failed", "switch_ run raised: %s" % ret[0]["msg"][:200], scn)
+            continue
+        want = sorted((t, v) for a, r, b, p in ips for t, i, v in preds[p["id"]]["writes"] if i == p["_out"] and (fail_at is None or t < fail_at))
+        got = sorted((e["t"], e["v"]) for e in tr if e["e"] == "rec" and e["id"] == 4 and (fail_at is None or e["t"] < fail_at))
+        if want != got:
+            chk.violation("switch-stream", "switch_ output: selected branches run alone (Dataflow.tla) give %s, switch_ produced %s" % (want, got),
+                          "# C12 switch_\n" + scn + "\n")
+            continue
+        # the previous branch receives no further evaluations
+        stopped = set()
+        for e in tr:
+            if e["e"] == "gstop":
+                stopped.add(e["g"])
+            elif e["e"] == "gstart":
+                stopped.discard(e["g"])
+            elif e["e"] in ("fn", "eval") and e.get("g") in stopped and e["g"] != 0:
+                chk.violation("old-branch-evaluated", "a de-selected branch instance was evaluated after it was stopped: %s" % e, scn)
+                break
+    chk.notes["unmatched_key_scenarios"] = nfail
+    chk.coverage["traces_validated_against_impl"] += len(scns)
+    for k in (0, 1):
+        chk.sample({"scenario": scns[k].splitlines()})
+    chk.coverage["rule"] = ("2-3 branches of 1-3 nodes (stateful, self-scheduling, over one or two held inputs), optional default, reload on/off, key "
+                            "histories with rapid flips, repeats of the same key, flips in the cycle of an input tick, returns to an earlier key, "
+                            "unmatched keys; expectation = Dataflow.tla on each selection interval: the branch alone with fresh state on the held "
+                            "inputs sampled at selection time then live; distinct = distinct scenario text")
+
+
+CHECKS = {"C10": check_c10, "C12": check_c12}
 
 
 def main():
